@@ -350,6 +350,13 @@ pub fn check_case(ctx: &mut Ctx, case: &Case, cfg: &Cfg, props: &[String], want_
             res.viols.push(v);
         }
     }
+    if case.meta.get("not_as_intended").is_some() {
+        *res.nontrivial.entry("not_as_intended").or_insert(0) += 1;
+        if has(props, "C13") || has(props, "C02") {
+            let p: &'static str = if has(props, "C02") { "C02" } else { "C13" };
+            res.viols.push(Viol { prop: p, clause: "generator_intent", detail: format!("a text rendered from a derivation of the grammar (with comments and directives between its tokens) does not scan to the {} tokens the generator wrote: {:?}", case.meta["intended"], crate::mon::context(text, text.len().min(120))) });
+        }
+    }
     if has(props, "C13") {
         if let Some(g) = case.meta.get("grid") {
             bump(&mut res, "C13");
@@ -435,6 +442,9 @@ pub fn check_case(ctx: &mut Ctx, case: &Case, cfg: &Cfg, props: &[String], want_
             rec["idents"] = pm.get("idents").cloned().unwrap_or(json!([]));
             rec["regions"] = Value::Array(pm["regions"].as_array().map(|v| v.iter().map(|rg| json!([cp(rg[0].as_u64().unwrap() as usize), cp(rg[1].as_u64().unwrap() as usize), rg.get(2).and_then(|x| x.as_bool()).unwrap_or(false)])).collect()).unwrap_or_default());
         } else {
+            if let Some(n) = case.meta.get("intended") {
+                rec["intended"] = n.clone();
+            }
             rec["regions"] = Value::Array(crate::toggle::regions(text, &tin).iter().map(|(s, e, open)| json!([cp(*s), cp(*e), open])).collect());
         }
         let asm: Vec<usize> = stages(&base.events)
